@@ -349,3 +349,79 @@ T('j17_encoder_fallback_method', ['C17'],
 B('j17_encoder_fallback_method_always_raises', ['C17'], 'R17.d',
   (RS, _DEV_TAIL, "        return self.fallback(obj)\n\n    def fallback(self, value):\n"
        "        raise TypeError('cannot serialize to JSON: %r' % value)\n"))
+
+# ------------------------------------------------------------------ second pass
+TB = 'clastic/render/tabular.py'
+_RR_STR = "        if isinstance(context, str):  # already serialized but not encoded\n"
+_RR_BYTES = "        if isinstance(context, bytes):  # already serialized and encoded\n"
+
+
+def _payload_form(test):
+    """render_response with the text normalised into one local that is None for everything else."""
+    return _RR_TEXT, '''        if isinstance(context, str):
+            payload = context.encode('utf8')
+        elif isinstance(context, bytes):
+            payload = context
+        else:
+            payload = None
+        if %s:
+            if self._guess_json(payload):
+                return Response(payload, mimetype="application/json")
+            elif b'<html' in payload[:168]:
+                return Response(payload, mimetype="text/html")
+            return Response(payload, mimetype="text/plain")
+''' % test
+
+
+# R17.c: the empty text is text -- '' and b'' take the text branch (text/plain); what separates "already serialized"
+# from "to be serialized" is the type of the result, never the truthiness / length of the text or of its encoded form
+T('j17_payload_none_is_not_none', ['C17'], (RS,) + _payload_form('payload is not None'))
+T('j17_payload_none_isinstance', ['C17'], (RS,) + _payload_form('isinstance(payload, bytes)'))
+B('j17_payload_none_truthiness', ['C17'], 'R17.c', (RS,) + _payload_form('payload'))
+B('j17_payload_none_len', ['C17'], 'R17.c', (RS,) + _payload_form('payload is not None and len(payload) > 0'))
+B('j17_nonempty_bytes_only', ['C17'], 'R17.c', (RS, _RR_BYTES, "        if context and isinstance(context, bytes):\n"))
+B('j17_nonempty_str_only', ['C17'], 'R17.c', (RS, _RR_STR, "        if isinstance(context, str) and len(context) != 0:\n"))
+B('j17_empty_text_to_serializer', ['C17'], 'R17.c',
+  (RS, _RR_STR, "        if context == '' or context == b'':\n            return self._serialize_to_resp(context, request, _route)\n" + _RR_STR))
+# an explicit early answer for the empty text is fine as long as it is the text/plain one
+T('j17_empty_text_early_plain', ['C17'],
+  (RS, _RR_STR, "        if isinstance(context, (str, bytes)) and not context:\n"
+                "            return Response(context, mimetype=\"text/plain\")\n" + _RR_STR))
+B('j17_empty_text_early_json', ['C17'], 'R17.c',
+  (RS, _RR_STR, "        if isinstance(context, (str, bytes)) and not context:\n"
+                "            return Response(context, mimetype=\"application/json\")\n" + _RR_STR))
+T('j17_text_test_not_none_guard', ['C17'], (RS, _RR_BYTES, "        if context is not None and isinstance(context, bytes):\n"))
+
+# R17.f: every .format / % on the render paths formats a constant template; data goes in as arguments
+_TITLE = '''        title = ('<h2><small><sub>%s</sub></small><br/>%s(%s)</h2>%s'
+                 % (ctx_label, func_name, argstr, html_doc))
+'''
+_HTML_DOC = "            html_doc = '<p style=\"white-space: pre;\">%s</p>' % escaped_doc\n"
+T('j17_title_format_all_arguments', ['C17'],
+  (TB, _TITLE, "        title = '<h2><small><sub>{0}</sub></small><br/>{1}({2})</h2>{3}'.format(ctx_label, func_name, argstr, html_doc)\n"))
+T('j17_title_template_constants', ['C17'],
+  (TB, _TITLE, "        title = (self._title_head + self._title_tail) % (ctx_label, func_name, argstr, html_doc)\n"),
+  (TB, "    _html_doctype = '<!doctype html>'\n", "    _html_doctype = '<!doctype html>'\n    _title_head = '<h2><small><sub>%s</sub></small><br/>'\n"
+       "    _title_tail = '%s(%s)</h2>%s'\n"))
+T('j17_title_joined_constant_template', ['C17'],
+  (TB, _TITLE, "        pieces = ['<h2><small><sub>{0}</sub></small><br/>']\n        pieces.append('{1}({2})</h2>')\n        pieces.append('{3}')\n"
+               "        title = ''.join(pieces).format(ctx_label, func_name, argstr, html_doc)\n"))
+T('j17_doc_paragraph_concatenated', ['C17'],
+  (TB, _HTML_DOC, "            html_doc = '<p style=\"white-space: pre;\">' + escaped_doc + '</p>'\n"))
+B('j17_doc_in_format_template', ['C17'], 'R17.f',
+  (TB, _TITLE, "        title = ('<h2><small><sub>{0}</sub></small><br/>{1}({2})</h2>' + html_doc).format(ctx_label, func_name, argstr)\n"))
+B('j17_argstr_in_percent_template', ['C17'], 'R17.f',
+  (TB, _TITLE, "        head = '<h2><small><sub>%s</sub></small><br/>%s(' + argstr + ')</h2>%s'\n        title = head % (ctx_label, func_name, html_doc)\n"))
+B('j17_fstring_then_format', ['C17'], 'R17.f',
+  (TB, _TITLE, "        title = f'<h2><small><sub>{ctx_label}</sub></small><br/>{func_name}({argstr})</h2>{{0}}'.format(html_doc)\n"))
+B('j17_joined_pieces_with_data_formatted', ['C17'], 'R17.f',
+  (TB, _TITLE, "        pieces = ['<h2><small><sub>{0}</sub></small><br/>']\n        pieces.append(func_name)\n        pieces.append('({1})</h2>{2}')\n"
+               "        title = ''.join(pieces).format(ctx_label, argstr, html_doc)\n"))
+B('j17_formatted_twice', ['C17'], 'R17.f',
+  (TB, _TITLE, "        title = '<h2><small><sub>%s</sub></small><br/>%s(%s)</h2>' % (ctx_label, func_name, argstr)\n"
+               "        title = (title + '%s') % html_doc\n"))
+B('j17_url_in_anchor_template', ['C17'], 'R17.f',
+  (TB, "        cur_url_anchor = '<a href=\"{0}\">{0}</a>'.format(cur_url_text)\n",
+       "        cur_url_anchor = ('<a href=\"' + cur_url_text + '\">{0}</a>').format(cur_url_text)\n"))
+B('j17_encoder_message_template', ['C17'], 'R17.f',
+  (RS, "        raise TypeError('cannot serialize to JSON: %r' % obj)", "        raise TypeError(('cannot serialize %s to JSON: ' % type(obj).__name__ + '%r') % obj)"))
